@@ -301,7 +301,10 @@ def gen_lifecycle_cases(chk, quick, factor):
             conns.append({"id": len(conns) + 1, "srv": 0, "nonce": 100 + len(conns), "claimant": False})
         if all(c["claimant"] for c in conns):
             conns[0]["claimant"] = False
-        sched = merge(rng, [[(c["id"], "name")] + ([] if c["claimant"] else [(c["id"], "auth")]) for c in conns])
+        # some authenticated sessions FAIL later (handler error: the node server hears about it through
+        # ActorFailed only) while further connections are still arriving
+        sched = merge(rng, [[(c["id"], "name")] + ([] if c["claimant"] else [(c["id"], "auth")])
+                            + ([(c["id"], "fail")] if not c["claimant"] and rng.random() < 0.3 else []) for c in conns])
         cases.append({"this": this, "peer": peer, "conns": {c["id"]: c for c in conns}, "sched": sched,
                       "ops": [], "state": {c["id"]: "new" for c in conns}, "why": [], "authed": [], "log": []})
     # the two fixed shapes of the C18-3 family
@@ -313,6 +316,12 @@ def gen_lifecycle_cases(chk, quick, factor):
                           "ops": [], "state": {1: "new", 2: "new"}, "why": [], "authed": [], "log": []})
             cases.append({"this": this, "peer": peer, "conns": mk(False),
                           "sched": [(2, "name"), (1, "name"), (2, "auth"), (1, "auth")],
+                          "ops": [], "state": {1: "new", 2: "new"}, "why": [], "authed": [], "log": []})
+    for this, peer in ((2, 1), (1, 2)):
+        for n1, n2 in ((3, 7), (7, 3), (0, 5)):
+            conns = {1: {"id": 1, "srv": 1, "nonce": n1, "claimant": False}, 2: {"id": 2, "srv": 1, "nonce": n2, "claimant": False}}
+            cases.append({"this": this, "peer": peer, "conns": conns,
+                          "sched": [(1, "name"), (1, "auth"), (1, "fail"), (2, "name"), (2, "auth")],
                           "ops": [], "state": {1: "new", 2: "new"}, "why": [], "authed": [], "log": []})
     return cases
 
@@ -342,6 +351,9 @@ def lifecycle_stage(chk, build, distinct, quick, factor):
                 elif what == "auth" and c["state"][cid] == "named":
                     new = [("commith", cid), ("cs", c["peer"], k["nonce"])]
                     step = (cid, "auth")
+                elif what == "fail" and c["state"][cid] == "ready":
+                    new = [("fail", cid)]
+                    step = (cid, "fail")
             q = [("el", i) for i in ids]
             lines.append(line(c, new + q))
             metas.append((new, step, len(c["ops"]), ids))
@@ -361,9 +373,17 @@ def lifecycle_stage(chk, build, distinct, quick, factor):
             cid, what = step
             k = c["conns"][cid]
             c["log"].append({"step": step, "answers": [show_term(x) for x in res], "elected": sorted(i for i in el if el[i])})
-            if what == "name":
+            if what == "fail":
+                c["state"][cid] = "closed"
+                c["failed"] = c.get("failed", []) + [cid]
+                if el.get(cid):
+                    c["why"].append(f"connection {cid} FAILED (ActorFailed) and is still reported elected: a dead session stays in the table")
+            elif what == "name":
                 code = res[-1][1] if k["srv"] else 0
                 if code == 2:
+                    if not [j for j in c["authed"] if c["state"][j] == "ready" and el.get(j)]:
+                        c["why"].append(f"the new connection {cid} is refused (NotOk) although no live authenticated connection to the "
+                                        f"peer exists: a dead session is still counted in the election")
                     c["state"][cid] = "closed"
                     c["ops"].append(("rm", cid))
                 elif code == 3:
@@ -396,7 +416,7 @@ def lifecycle_stage(chk, build, distinct, quick, factor):
         distinct.add(line(c, []))
         live = [j for j in c["authed"] if c["state"][j] == "ready"]
         elected = [j for j in live if c.get("last_el", {}).get(j)]
-        if c["authed"] and len(elected) != 1 and not c["why"]:
+        if c["authed"] and len(elected) != 1 and not c["why"] and (live or not c.get("failed")):
             c["why"].append(f"connections {c['authed']} authenticated; at the end {len(elected)} elected open sessions {elected} "
                             f"(open authenticated: {live})")
         if c["why"]:
